@@ -44,3 +44,35 @@ m = {
 }
 json.dump(m, open(os.path.join(VERIF, "MANIFEST.json"), "w"), indent=1)
 print("MANIFEST.json:", len(checks), "checks,", len(na), "not applicable")
+
+# ---- unit_tags.json: which properties each unit carries clauses for (relevance is by clause tag;
+# a check runs every unit that has a clause tagged with its property, not only the units listed in
+# props.py -- several seeded changes were detected by a unit that the property's list did not name)
+def _unit_tags():
+    from vlib import run
+    from vlib.core import Undecided
+    os.environ.setdefault("VERIF_REPO", "/repo")
+    units = sorted({u for P in props.PROPS.values() for u in P["units"]})
+    out = {}
+    for un in units:
+        try:
+            u, _ = run.assemble(un, None, False)
+        except Undecided as e:
+            print(f"unit_tags: {un}: {e} (kept from the previous file)")
+            continue
+        tags = set()
+        for o in u.obligations:
+            tags |= set(o.get("tags") or [])
+        for t in u.implicit_tags.values():
+            tags |= set(t or [])
+        for pc in u.pieces:
+            if isinstance(pc.tag, dict):
+                tags |= set(pc.tag.get("tags") or [])
+        out[un] = sorted(t for t in tags if t in props.PROPS)
+    return out
+
+
+path = os.path.join(VERIF, "unit_tags.json")
+old = json.load(open(path)) if os.path.exists(path) else {}
+old.update(_unit_tags())
+json.dump(old, open(path, "w"), indent=1, sort_keys=True)
